@@ -194,6 +194,11 @@ def case_nsum(r, st, quick):
         ref = "sersum mul fin %s %d %d inf %s" % (ser_tokens(d1), a, b, ser_tokens(d2))
     elif shape == "fin_fin":
         d1, d2 = gen_ser(r), gen_ser(r)
+        # same conditioning rule as for the one-dimensional finite shape (see there)
+        while d1["ser"] in ("expS", "sinS", "cosS") and not fast(d1):
+            d1 = gen_ser(r)
+        while d2["ser"] in ("expS", "sinS", "cosS") and not fast(d2):
+            d2 = gen_ser(r)
         a = ser_start(d1); b = a + r.choice([0, 3, 9]); a2 = ser_start(d2) + 1; b2 = a2 + r.choice([0, 2, 7])
         t["sers"] = [d1, d2]; t.update(a=a, b=b, a2=a2, b2=b2); t["method"] = None
         ref = "sersum mul fin %s %d %d fin %s %d %d" % (ser_tokens(d1), a, b, ser_tokens(d2), a2, b2)
